@@ -117,7 +117,7 @@ func (f *frame) external(n *node, callee *ssa.Function, full string, args []Val,
 			hi := (nb-i)*8 - 1
 			inner = fmt.Sprintf("(store %s (bvadd %s %s) ((_ extract %d %d) %s))", inner, s.C[1], bvLit(uint64(i), 64), hi, hi-7, v.C[0])
 		}
-		x.hset(n.heap, k, SortBV8, SortBV64, g.Fresh(heapArraySort(SortBV8, SortBV64), "(store "+arr+" "+s.C[0]+" "+inner+")"))
+		x.hset(n.heap, k, SortBV8, SortBV64, g.Fresh(heapArraySort(SortBV8, SortBV64), "(store "+arr+" "+s.C[0]+" "+inner+")"), s.C[0])
 		for _, ep := range f.activeEpochs(n) {
 			ep.written[k] = true
 		}
